@@ -191,7 +191,7 @@ def coq_eval(name, body, timeout=900):
     return out
 
 
-def coq_eval_many(items, timeout=900, jobs=16):
+def coq_eval_many(items, timeout=900, jobs=8):
     """items: list of (name, body) -> list of stdout, evaluated in parallel."""
     with ThreadPoolExecutor(max_workers=jobs) as ex:
         return list(ex.map(lambda nb: coq_eval(nb[0], nb[1], timeout), items))
